@@ -325,6 +325,8 @@ type shutRun struct {
 	cfgIdle       [2]time.Duration
 	finalCloseNS  int64
 	giveUpNS      int64
+	rdl           []interface{ SetReadDeadline(time.Time) error }
+	wdl           []interface{ SetWriteDeadline(time.Time) error }
 	protoNS       int64
 	protoCode     uint64
 	lastPkt       [2]*TapPacket
@@ -390,6 +392,8 @@ func (s *shutRun) call(side int, kind string, later bool, fn func() error) error
 func (s *shutRun) addStream(side int, st *quic.Stream) {
 	s.mu.Lock()
 	s.sides[side].streams = append(s.sides[side].streams, st)
+	s.rdl = append(s.rdl, st)
+	s.wdl = append(s.wdl, st)
 	s.mu.Unlock()
 }
 
@@ -464,6 +468,9 @@ func (s *shutRun) actor(side int, a ShutActor) {
 			if s.call(side, "openuni", false, func() error { var e error; st, e = conn.OpenUniStreamSync(ctx); return e }) != nil {
 				return
 			}
+			s.mu.Lock()
+			s.wdl = append(s.wdl, st)
+			s.mu.Unlock()
 			wr = st
 		} else {
 			st := openBidi()
@@ -508,6 +515,9 @@ func (s *shutRun) actor(side int, a ShutActor) {
 			if s.call(side, "acceptuni", false, func() error { var e error; st, e = conn.AcceptUniStream(ctx); return e }) != nil {
 				return
 			}
+			s.mu.Lock()
+			s.rdl = append(s.rdl, st)
+			s.mu.Unlock()
 			if a.N%2 == 0 {
 				s.wg.Add(1)
 				go drain("read", st)
@@ -551,7 +561,9 @@ func (s *shutRun) actor(side int, a ShutActor) {
 	}
 }
 
-// laterCalls issues one call of every kind on a connection that has ended.
+// laterCalls issues one call of every kind on a connection that has ended. Every call runs in a goroutine of its
+// own so that one that (wrongly) blocks does not hold up the rest; it is released at the end of the run and reported
+// by the judge.
 func (s *shutRun) laterCalls(side int) {
 	sd := s.sides[side]
 	conn := sd.conn
@@ -562,25 +574,41 @@ func (s *shutRun) laterCalls(side int) {
 		st = sd.streams[0]
 	}
 	s.mu.Unlock()
+	late := func(kind string, fn func() error) error {
+		done := make(chan error, 1)
+		s.wg.Add(1)
+		go func() {
+			defer s.wg.Done()
+			done <- s.call(side, kind, true, fn)
+		}()
+		tm := time.NewTimer(2 * time.Millisecond)
+		defer tm.Stop()
+		select {
+		case err := <-done:
+			return err
+		case <-tm.C:
+			return errors.New("stuck")
+		}
+	}
 	if st != nil {
 		buf := make([]byte, 16)
-		s.call(side, "read", true, func() error { _, e := st.Read(buf); return e })
-		s.call(side, "write", true, func() error { _, e := st.Write(buf); return e })
+		late("read", func() error { _, e := st.Read(buf); return e })
+		late("write", func() error { _, e := st.Write(buf); return e })
 	}
-	s.call(side, "accept", true, func() error { _, e := conn.AcceptStream(ctx); return e })
-	s.call(side, "acceptuni", true, func() error { _, e := conn.AcceptUniStream(ctx); return e })
-	s.call(side, "open", true, func() error { _, e := conn.OpenStreamSync(ctx); return e })
-	s.call(side, "openuni", true, func() error { _, e := conn.OpenUniStreamSync(ctx); return e })
-	s.call(side, "open-nosync", true, func() error { _, e := conn.OpenStream(); return e })
-	s.call(side, "openuni-nosync", true, func() error { _, e := conn.OpenUniStream(); return e })
+	late("accept", func() error { _, e := conn.AcceptStream(ctx); return e })
+	late("acceptuni", func() error { _, e := conn.AcceptUniStream(ctx); return e })
+	late("open", func() error { _, e := conn.OpenStreamSync(ctx); return e })
+	late("openuni", func() error { _, e := conn.OpenUniStreamSync(ctx); return e })
+	late("open-nosync", func() error { _, e := conn.OpenStream(); return e })
+	late("openuni-nosync", func() error { _, e := conn.OpenUniStream(); return e })
 	if s.datagramsOn() {
 		// datagrams queued before the end may still be handed out; then the error
 		for i := 0; i < 200; i++ {
-			if s.call(side, "rcvdgram", true, func() error { _, e := conn.ReceiveDatagram(ctx); return e }) != nil {
+			if late("rcvdgram", func() error { _, e := conn.ReceiveDatagram(ctx); return e }) != nil {
 				break
 			}
 		}
-		s.call(side, "snddgram", true, func() error { return conn.SendDatagram([]byte("late datagram")) })
+		late("snddgram", func() error { return conn.SendDatagram([]byte("late datagram")) })
 	}
 }
 
@@ -915,6 +943,9 @@ func shutRunSim(t *testing.T, ksc KScenario, res *KResult) {
 		s.known(s.deferred[0][0], "%s", s.deferred[0][1])
 	}
 	s.trace()
+	// every goroutine of the workload ends now; one that cannot (a call that no deadline and no context releases)
+	// makes the bubble report a leak - after the judge has named the call
+	s.wg.Wait()
 }
 
 func (s *shutRun) startSide(side int, conn *quic.Conn, end *shutEnd) {
@@ -1142,17 +1173,17 @@ func (s *shutRun) execute() {
 			stuck = true
 		}
 	}
-	var sts []*quic.Stream
-	for k := 0; k < 2; k++ {
-		sts = append(sts, s.sides[k].streams...)
-	}
+	rdl, wdl := s.rdl, s.wdl
 	s.mu.Unlock()
 	if stuck {
-		for _, st := range sts {
-			st.SetDeadline(time.Now().Add(-time.Second))
+		for _, st := range rdl {
+			st.SetReadDeadline(time.Now().Add(-time.Second))
 		}
+		for _, st := range wdl {
+			st.SetWriteDeadline(time.Now().Add(-time.Second))
+		}
+		time.Sleep(time.Millisecond)
 	}
-	s.wg.Wait()
 }
 
 // ---------------------------------------------------------------- judge
@@ -1780,6 +1811,15 @@ func (s *shutRun) judgeWire(k int, v *shutView, ccs []shutCC, tc *TapConn) {
 	}
 	D := v.doneNS
 	if len(mine) == 0 {
+		for _, rec := range s.w.Log[k] {
+			for _, p := range rec.Pkts {
+				if !p.Opened && p.Type != TapRetry && p.Type != TapVN && rec.SentNS >= D-shutPrompt && rec.SentNS <= D+shutPrompt {
+					// e.g. an Initial protected with keys derived from a connection ID that was damaged in transit
+					s.res.Probe("close-not-observable")
+					return
+				}
+			}
+		}
 		if len(s.w.Log[k]) > 0 {
 			s.report("(4) no CONNECTION_CLOSE on the wire although the endpoint closed the connection ("+v.class+")", "side %d: cause %v at %v", k, v.cause, time.Duration(D))
 		}
